@@ -38,6 +38,30 @@ def check_gev(run, A):
     calls = sel.eig_calls(g)
     if not calls:
         raise AnalysisError('_get_gev_vector: eigen-decomposition not found')
+    # the buffer the eigenvectors are written into is complex whatever the dtypes of the two PSD matrices: a generalised eigenvector of a real
+    # target and a complex noise matrix is complex, and storing it in a real buffer drops its imaginary part (a ComplexWarning, no error)
+    bufs = {}
+    for e in g.events:
+        if e.kind == 'store':
+            root = e.term.args[0]
+            while isinstance(root, T) and root.op in ('mu', 'store', 'refine'):
+                root = root.args[0]
+            root = strip_views(root)
+            if is_call_to(root, 'numpy.empty', 'numpy.zeros', 'numpy.empty_like', 'numpy.zeros_like') and any(any(x is c_ for x in walk_terms(e.term.args[2])) for c_, _ in calls):
+                bufs[id(root)] = root
+    if not bufs:
+        raise AnalysisError('_get_gev_vector: the buffer that receives the eigenvectors is no longer recognised')
+    for root in bufs.values():
+        dt = call_arg(root, 1, 'dtype')
+        okb = False
+        if dt is not None:
+            d0 = strip_views(dt)
+            name = getattr(d0.args[0], 'dotted', None) if d0.op == 'ref' else None
+            okb = name in ('numpy.complex128', 'numpy.complex64', 'numpy.cdouble', 'numpy.complex_', 'numpy.csingle') or (d0.op == 'ref' and d0.args[0] == ('builtin', 'complex')) \
+                or (is_call_to(d0, 'numpy.result_type', 'numpy.promote_types') and derives(d0, 'target_psd_matrix') and derives(d0, 'noise_psd_matrix'))
+        run.check(okb, 'R-API', '_get_gev_vector: the eigenvector buffer is complex for every input dtype', fn.loc(root.node), '',
+                  'the buffer that receives the generalised eigenvectors takes its dtype from one input only (or is real): with a real target and a complex noise PSD the imaginary '
+                  'part of the eigenvector is dropped on assignment and the result no longer maximises the Rayleigh quotient', construct=f'R-API::{q}::buffer-dtype')
     for t, srt in calls:
         a, b = call_arg(t, 0), call_arg(t, 1)
         run.check(derives(a, 'target_psd_matrix') and not derives(a, 'noise_psd_matrix') and derives(b, 'noise_psd_matrix') and not derives(b, 'target_psd_matrix'),
@@ -62,37 +86,43 @@ def check_pca(run, A):
     qv = B + 'get_pca_vector'
     fn = A.prog.func(qv)
     g = A.graphs.get(fn)
-    rets = ret_alts(g)
-    ret = strip_views(rets[0]) if len(rets) == 1 else strip_views(g.ret)
-    ok = ret.op == 'binop' and ret.args[0] == 'Mult'
+    rets = [strip_views(r) for r in ret_alts(g)]
+    ok = bool(rets) and all(r.op == 'binop' and r.args[0] == 'Mult' for r in rets)
     run.check(ok, 'SHAPE', 'get_pca_vector: returns eigenvector * scale', fn.loc(), '', 'return value is not a product of the principal eigenvector with a scale', construct=f'SHAPE::{qv}::product')
     if ok:
-        vec, scale = ret.args[1], ret.args[2]
-        alts = [strip_views(x) for x in unwrap_gamma(scale) if x.op != 'raise']
         n_scaled = 0
-        for x in alts:
-            if const_val(x) == 1:
-                continue
-            n_scaled += 1
-            base = trailing_none(x)
-            run.check(base is not None, 'SHAPE', 'get_pca_vector: scale has a trailing singleton axis', fn.loc(getattr(x, 'node', None)), '',
-                      'the scaling factor is not broadcast as scale[..., None]', construct=f'SHAPE::{qv}::scale-axis')
-            if base is None:
-                continue
-            for b in unwrap_gamma(base):
-                b = strip_views(b)
-                if b.op == 'binop' and b.args[0] == 'Div':
-                    num, den = b.args[1], b.args[2]
-                    okd = is_call_to(den, 'numpy.linalg.norm') and const_val(call_arg(den, None, 'axis')) == -1
-                    if is_call_to(num, 'numpy.sqrt'):
-                        tr = call_arg(num, 0)
-                        okn = is_call_to(tr, 'numpy.trace') and {const_val(call_arg(tr, None, 'axis1')), const_val(call_arg(tr, None, 'axis2'))} == {-1, -2} and derives(tr, 'target_psd_matrix')
-                        run.check(okn and okd, 'R-ROLE', "get_pca_vector['trace']: sqrt(tr Phi) / ||v||", fn.loc(b.node), '', 'trace scaling is not sqrt(trace over the last two axes) / norm(axis=-1)',
-                                  construct=f'R-ROLE::{qv}::trace-scaling')
-                    else:
-                        okn = strip_views(num).op == 'unpack' and strip_views(num).args[1] == 1
-                        run.check(okn and okd, 'R-ROLE', "get_pca_vector['eigenvalue']: lambda_max / ||v||", fn.loc(b.node), '', 'eigenvalue scaling does not use the eigenvalue returned by get_pca',
-                                  construct=f'R-ROLE::{qv}::eigenvalue-scaling')
+        for ret in rets:
+            vec, scale = ret.args[1], ret.args[2]
+            alts = [strip_views(x) for x in unwrap_gamma(scale) if x.op != 'raise']
+            for x in alts:
+                if const_val(x) == 1:
+                    continue
+                base = trailing_none(x)
+                run.check(base is not None, 'SHAPE', 'get_pca_vector: scale has a trailing singleton axis', fn.loc(getattr(x, 'node', None)), '',
+                          'the scaling factor is not broadcast as scale[..., None]', construct=f'SHAPE::{qv}::scale-axis')
+                if base is None:
+                    n_scaled += 1
+                    continue
+                for b in unwrap_gamma(base):
+                    b = strip_views(b)
+                    if b.op in ('binop', 'iop') and b.args[0] == 'Div':
+                        den = b.args[2]
+                        okd = is_call_to(den, 'numpy.linalg.norm') and const_val(call_arg(den, None, 'axis')) == -1
+                        # the gain may be selected before one shared division by the norm
+                        for num in unwrap_gamma(b.args[1]):
+                            num = strip_views(num)
+                            if num.op == 'raise':
+                                continue
+                            n_scaled += 1
+                            if is_call_to(num, 'numpy.sqrt'):
+                                tr = call_arg(num, 0)
+                                okn = is_call_to(tr, 'numpy.trace') and {const_val(call_arg(tr, None, 'axis1')), const_val(call_arg(tr, None, 'axis2'))} == {-1, -2} and derives(tr, 'target_psd_matrix')
+                                run.check(okn and okd, 'R-ROLE', "get_pca_vector['trace']: sqrt(tr Phi) / ||v||", fn.loc(b.node), '', 'trace scaling is not sqrt(trace over the last two axes) / norm(axis=-1)',
+                                          construct=f'R-ROLE::{qv}::trace-scaling')
+                            else:
+                                okn = num.op == 'unpack' and num.args[1] == 1
+                                run.check(okn and okd, 'R-ROLE', "get_pca_vector['eigenvalue']: lambda_max / ||v||", fn.loc(b.node), '', 'eigenvalue scaling does not use the eigenvalue returned by get_pca',
+                                          construct=f'R-ROLE::{qv}::eigenvalue-scaling')
         if n_scaled < 2:
             raise AnalysisError('get_pca_vector: scaling alternatives not found')
 
